@@ -47,6 +47,9 @@ type c12Case struct {
 	Creds bool `json:",omitempty"`
 	// Decorated: every description goes through grpchan.InterceptServer (pass-through interceptors) before it is registered
 	Decorated bool `json:",omitempty"`
+	// DescHandler: the StreamDesc the client passes to NewStream carries a handler of its own (as the
+	// descriptors used by generated stubs do)
+	DescHandler bool `json:",omitempty"`
 }
 
 type c12Creds struct{}
@@ -195,11 +198,24 @@ func propC12(c c12Case) *Outcome {
 	if isHTTP(c.Carrier) {
 		o.class("base-segments=%d", strings.Count(strings.Trim(c.Base, "/"), "/")+btoi(strings.Trim(c.Base, "/") != ""))
 	}
+	// generated stubs hand NewStream the service's own StreamDesc, handler and all; which handler runs is
+	// decided by the name and the registration alone - a handler that comes with the caller's descriptor never runs
+	clientDesc := func() *grpc.StreamDesc {
+		d := &grpc.StreamDesc{ClientStreams: true, ServerStreams: true}
+		if c.DescHandler {
+			d.StreamName = "Decoy"
+			d.Handler = func(srv interface{}, stream grpc.ServerStream) error {
+				ctr.hit("!decoy-handler-from-the-callers-descriptor")
+				return nil
+			}
+		}
+		return d
+	}
 	doCall := func(name string, viaStream bool) error {
 		ctx, cancel := context.WithCancel(context.Background())
 		defer cancel()
 		if viaStream {
-			cs, err := conn.NewStream(ctx, &grpc.StreamDesc{ClientStreams: true, ServerStreams: true}, name)
+			cs, err := conn.NewStream(ctx, clientDesc(), name)
 			if err != nil {
 				return err
 			}
@@ -249,7 +265,7 @@ func propC12(c c12Case) *Outcome {
 		defer cancel()
 		if c.ViaStream {
 			var cs grpc.ClientStream
-			cs, err = conn.NewStream(ctx, &grpc.StreamDesc{ClientStreams: true, ServerStreams: true}, c.Name, copts...)
+			cs, err = conn.NewStream(ctx, clientDesc(), c.Name, copts...)
 			if err == nil {
 				cs.SendMsg(&pb.Message{})
 				cs.CloseSend()
@@ -400,7 +416,7 @@ func genC12(t *rapid.T) c12Case {
 	case 9:
 		c.Name, c.Origin = rapid.SampledFrom([]string{"/", "/" + svcPart, "/" + svcPart + "/", "//", "/" + mPart}).Draw(t, "short"), "missing-part"
 	case 10:
-		c.Name, c.Origin = reg+"/x", "extra-segment"
+		c.Name, c.Origin = rapid.SampledFrom([]string{reg + "/x", "/" + svcPart + "/x/" + mPart, "/" + svcPart + "/" + mPart + "/" + mPart, "/" + svcPart + "/a/b/" + mPart, "/x/" + svcPart + "/" + mPart}).Draw(t, "extraseg"), "extra-segment"
 	case 11:
 		c.Name, c.Origin = reg[:len(reg)-1], "prefix"
 	case 12:
@@ -427,6 +443,7 @@ func genC12(t *rapid.T) c12Case {
 	}
 	c.Creds = rapid.IntRange(0, 4).Draw(t, "creds") == 0
 	c.Decorated = rapid.IntRange(0, 3).Draw(t, "decorated") == 0
+	c.DescHandler = rapid.Bool().Draw(t, "deschandler")
 	c.Late = rapid.IntRange(0, 4).Draw(t, "late") == 0
 	if c.Late || rapid.IntRange(0, 2).Draw(t, "pre") == 0 {
 		np := rapid.IntRange(1, 3).Draw(t, "npre")
